@@ -592,6 +592,39 @@ func (s *decScope) countedLoop(head *ssa.BasicBlock, body map[*ssa.BasicBlock]bo
 						return true
 					}
 				}
+				// a loop counted by the length of a slice that grows on every back
+				// edge: for len(s) < n { ...; s = append(s, x) }
+				if lc, ok := side.(*ssa.Call); ok && len(lc.Call.Args) == 1 {
+					if bi, ok := lc.Call.Value.(*ssa.Builtin); ok && bi.Name() == "len" {
+						if phi, ok := lc.Call.Args[0].(*ssa.Phi); ok && phi.Block() == head {
+							grown, all := 0, true
+							for i, e := range phi.Edges {
+								if !body[head.Preds[i]] {
+									continue
+								}
+								ap, ok := e.(*ssa.Call)
+								if ok {
+									if ab, ok := ap.Call.Value.(*ssa.Builtin); ok && ab.Name() == "append" && len(ap.Call.Args) == 2 && ap.Call.Args[0] == ssa.Value(phi) {
+										if sl, ok := ap.Call.Args[1].(*ssa.Slice); ok {
+											if al, ok := sl.X.(*ssa.Alloc); ok {
+												if pt, ok := al.Type().Underlying().(*types.Pointer); ok {
+													if at, ok := pt.Elem().Underlying().(*types.Array); ok && at.Len() >= 1 {
+														grown++
+														continue
+													}
+												}
+											}
+										}
+									}
+								}
+								all = false
+							}
+							if all && grown > 0 {
+								return true
+							}
+						}
+					}
+				}
 				if phi, ok := side.(*ssa.Phi); ok && phi.Block() == head {
 					// an induction variable: on every back edge it is phi +/- const
 					stepped, all := 0, true
